@@ -59,7 +59,7 @@ func init() {
 		Level: "translation_validation",
 		Rule: "programs = seeded bundles in the common subset (typed generator: numeric operands for arithmetic and ordering, boolean operands for and/or/not, same-kind equality, ints within 2^53, " +
 			"scalars printed, in-range indexes, iteration over lists; all commands, call forms, msg/plural, globals, $ij, autoescape modes, directives except escapeUri/escapeJsString/json) plus 13 " +
-			"hand-written probe templates; each is translated by soyjs.Write (ES5), loaded with soyutils into a JS engine and called with the same data and $ij (2-4 data maps), with and without a " +
+			"hand-written probe templates and, in every fourth case, a template printing float literals and float data from every decade of float64 with their sums, differences, products and quotients; each is translated by soyjs.Write (ES5), loaded with soyutils into a JS engine and called with the same data and $ij (2-4 data maps), with and without a " +
 			"translation bundle; the returned string must equal byte for byte what Tofu.Render writes. Renders the Go backend fails are dropped. distinct = distinct (sources, data, bundle?); non-trivial = all executed on both sides",
 		N: func(tier string) int {
 			if tier == "thorough" {
@@ -82,6 +82,27 @@ func init() {
 			prog := g.Bundle(1+ctx.Rng.Intn(3), 2+ctx.Rng.Intn(4))
 			files := bundleSources(prog.B, ref.Layout{Multiline: i%5 == 1, CRLF: i%7 == 3})
 			files = append(files, c04ProbeFile())
+			// numbers over the whole float64 range as literals and as data: their text must be the same on both sides
+			var fltData map[string]ref.Value
+			if i%4 == 2 && e.Name() == "node" {
+				lad := gen.FloatLadder()
+				pick := func() ref.Expr { return lad[ctx.Rng.Intn(len(lad))] }
+				var b strings.Builder
+				b.WriteString("{namespace flt}\n/** @param x\n * @param y */\n{template .f}\n")
+				for k := 0; k < 4; k++ {
+					a, c := pick(), pick()
+					for _, ex := range []ref.Expr{a, &ref.Unary{Op: "-", X: a}, &ref.Binary{Op: "*", L: a, R: c}, &ref.Binary{Op: "/", L: a, R: c},
+						&ref.Binary{Op: "+", L: a, R: c}, &ref.Binary{Op: "-", L: a, R: c}, &ref.Binary{Op: "*", L: a, R: &ref.DataRef{Name: "x"}},
+						&ref.Binary{Op: "+", L: &ref.DataRef{Name: "y"}, R: c}, &ref.Binary{Op: "<", L: a, R: c}} {
+						b.WriteString("{" + ref.Src(ex, ref.PrintStyle{}) + "};")
+					}
+					b.WriteString("\n")
+				}
+				b.WriteString("{$x};{$y};{$x * $y};{$x / $y};{$x + $y};{$x - $y}\n{/template}\n")
+				files = append(files, srcFile{"flt.soy", b.String()})
+				fltData = map[string]ref.Value{"x": pick().(*ref.Lit).V, "y": pick().(*ref.Lit).V}
+				ctx.Cell("family:float-text")
+			}
 			reg, err := compileRegistry(files, prog.B.Globals)
 			if err != nil {
 				return fw.Result{Verdict: fw.Skip} // C02's subject
@@ -140,8 +161,11 @@ func init() {
 						targets = append(targets, target{"probe." + strings.ReplaceAll(p.name, "-", "_"), pd})
 					}
 				}
+				if fltData != nil && pass == 0 {
+					targets = append(targets, target{"flt.f", fltData})
+				}
 				for _, tg := range targets {
-					if !strings.HasPrefix(tg.name, "probe.") {
+					if !strings.HasPrefix(tg.name, "probe.") && tg.name != "flt.f" {
 						// re-check the subset with the reference: the program must have a defined value
 						// (only the text of a float may be left open)
 						ref.FloatTextLenient = true
@@ -170,6 +194,9 @@ func init() {
 					jsOut, typ, jsErr := e.Eval(tg.name + "(" + jsonArg(goData(tg.data)) + ", null, " + ij + ")")
 					ctx.Eval(fmt.Sprintf("%v|%s|%v|%v", files[0].Text, tg.name, goData(tg.data), withMsgs))
 					ctx.Obs("executions_compared", 1)
+					if tg.name == "flt.f" {
+						ctx.Obs("float_text_templates_compared", 1)
+					}
 					ctx.Obs("disagreements_checked", 1)
 					cd := map[string]interface{}{"files": files, "template": tg.name, "data": goData(tg.data), "ij": ij, "with_messages": withMsgs, "go": goOut, "js": jsOut}
 					if jsErr != nil {
@@ -182,7 +209,7 @@ func init() {
 					}
 					if typ != "string" || jsOut != goOut {
 						key := "go-js-differ"
-						if strings.HasPrefix(tg.name, "probe.") {
+						if strings.HasPrefix(tg.name, "probe.") || tg.name == "flt.f" {
 							key += ":" + tg.name
 						}
 						cd["generated_js"] = js
@@ -208,6 +235,9 @@ func init() {
 			}
 			if obs["executions_compared"] == 0 {
 				why = append(why, "nothing was executed on both backends")
+			}
+			if obs["float_text_templates_compared"] == 0 && cells["engine:node"] {
+				why = append(why, "no float-text template was compared")
 			}
 			if obs["translated_messages_rendered"] == 0 {
 				why = append(why, "no translated message was rendered")
